@@ -23,7 +23,7 @@ def corpus():
         "progress.seq s1,s1,s1,S1,s1,T",
         "progress.seq s9,s8,s7,S1,s6,s5,S1,s10,T",
         "progress.seq u5,s3,u7,T",
-        "scn.measure 30 120",
+        "scn.measure 30 120", "scn.measure 10 150 failnow", "scn.measure 10 150 panic", "scn.measure 10 120 fail", "scn.measure 10 120 require",
     ]
 
 
@@ -63,7 +63,7 @@ def generate(rng, tier):
     out = [history(rng, rng.choice([1, 2, 3, 5, 8, 13, 30, 60])) for _ in range(n)]
     m = {"quick": 2, "thorough": 12, "search": 4}[tier]
     for _ in range(m):
-        out.append("scn.measure %d %d" % (rng.choice([10, 20, 40]), rng.choice([60, 100, 150])))
+        out.append("scn.measure %d %d %s" % (rng.choice([10, 20, 40]), rng.choice([60, 100, 150]), rng.choice(["pass", "failnow", "panic", "fail", "require"])))
     return out
 
 
